@@ -523,6 +523,9 @@ func (fr *Frame) assignLocs(assigns []Clause, scope map[string]*Val, old *State)
 			defer func() { vc.specDepth--; fr.reach, fr.st = saveReach, saveSt }()
 			if n.Kind == "call" && n.Args[0].Kind == "ident" && (n.Args[0].Name == "elems" || n.Args[0].Name == "capelems") {
 				x := env.eval(n.Args[1])
+				if !isSliceT(x.T) {
+					env.fail("%s(...) of a value that is not a slice (%v): the contract no longer fits the code", n.Args[0].Name, x.T)
+				}
 				et := elemOf(x.T)
 				cnt := x.L[1]
 				if n.Args[0].Name == "capelems" {
@@ -533,6 +536,9 @@ func (fr *Frame) assignLocs(assigns []Clause, scope map[string]*Val, old *State)
 			}
 			if n.Kind == "slice" {
 				x := env.eval(n.Args[0])
+				if !isSliceT(x.T) {
+					env.fail("slice expression on a value that is not a slice (%v): the contract no longer fits the code", x.T)
+				}
 				lo, hi := "0", x.L[1]
 				if n.Args[1] != nil {
 					lo = env.intOf(env.eval(n.Args[1]))
